@@ -192,6 +192,9 @@ func (r *Run) Inconclusive(what string) {
 
 // Require marks the run as having observed too little (harness failure, never a violation).
 func (r *Run) Require(name string, min int64) {
+	if r.Scale < 1 {
+		min = int64(float64(min) * r.Scale) // reduced-scale reruns (e.g. under -race) need proportionally less
+	}
 	r.mu.Lock()
 	defer r.mu.Unlock()
 	if r.counters[name] < min && r.tooLittle == "" {
@@ -200,6 +203,9 @@ func (r *Run) Require(name string, min int64) {
 }
 
 func (r *Run) RequireDistinct(class string, min int) {
+	if r.Scale < 1 {
+		min = int(float64(min) * r.Scale)
+	}
 	r.mu.Lock()
 	defer r.mu.Unlock()
 	if len(r.distinct[class]) < min && r.tooLittle == "" {
